@@ -244,6 +244,38 @@ theorem c08_auth (c : AuthCfg) (faults : Nat → Bool) (ops : List Op) :
     ∀ w ∈ run c faults ⟨none, 0⟩ ops, ∀ x, w.metadata = some x → x = some (expectedMetadata c) :=
   run_inv c faults ops ⟨none, 0⟩ (Or.inl rfl)
 
+/-- **the provider must be constant** — `c08_auth` above is about configurations whose provider always supplies the
+    same metadata (`AuthCfg` has no other).  For a provider whose answer depends on when it is asked (`answers t`):
+    under the named hypothesis every request carries what the provider supplies AT THAT TIME … -/
+theorem c08_auth_current_partial (answers : Nat → Metadata) (ProviderIsConstant : ∀ i j, answers i = answers j)
+    (times : List Nat) : sentAt answers none times = times.map answers := by
+  have gen : ∀ (ts : List Nat) (cache : Option Metadata), (cache = none ∨ cache = some (answers 0)) →
+      sentAt answers cache ts = ts.map answers := by
+    intro ts
+    induction ts with
+    | nil => intro _ _; rfl
+    | cons t rest ih =>
+      intro cache h
+      rcases h with h | h <;> subst h
+      · simp only [sentAt, metadataAt, List.map_cons]
+        congr 1
+        apply ih
+        cases metadataCached
+        · exact Or.inl rfl
+        · exact Or.inr (by simp [ProviderIsConstant t 0])
+      · simp only [sentAt, metadataAt, List.map_cons]
+        rw [ProviderIsConstant t 0]
+        congr 1
+        exact ih _ (Or.inr rfl)
+  exact gen times none (Or.inl rfl)
+
+/-- … and the hypothesis is needed (known finding C08/auth-metadata-cached-forever): a provider whose token rotates
+    is asked once; the second request carries the FIRST token although the provider's answer is by then another -/
+theorem c08_auth_rotation_witness :
+    let answers : Nat → Metadata := fun t => [("authorization", if t = 0 then "Bearer token-0" else "Bearer token-1")]
+    sentAt answers none [0, 1] = [answers 0, answers 0] ∧ answers 1 ≠ answers 0 := by
+  decide
+
 /-- a failed attempt leaves nothing behind: as long as nothing is cached, the first time the provider answers its
     value is what `metadata()` returns -/
 theorem c08_auth_recovers (c : AuthCfg) (faults : Nat → Bool) (g : Grpc) (h : g.cache = none)
